@@ -1,9 +1,11 @@
 package main
 
 import (
+	"fmt"
 	"go/ast"
 	"go/token"
 	"go/types"
+	"os"
 )
 
 // E6 helper: flow-insensitive, intra-procedural "may depend on" relation between the local
@@ -163,4 +165,57 @@ func lfLocalCallees(p *Prog, pkg *types.Package, info *types.Info, root *types.F
 		visit(root)
 	}
 	return order
+}
+
+// Aliases calls visit for every expression that e may denote as a whole value through local aliasing only:
+// identifiers are followed to the expressions assigned to them, &x / (x) are stripped, append(s, a, b...) denotes
+// the elements of s, a, b..., a range variable denotes the elements of the ranged expression. Sub-expressions
+// (operands, call arguments other than append's, literal fields) are NOT followed.
+func (d *lfDeps) Aliases(e ast.Expr, visit func(x ast.Expr)) {
+	seen := map[types.Object]bool{}
+	var walk func(e ast.Expr)
+	walk = func(e ast.Expr) {
+		e = ast.Unparen(e)
+		visit(e)
+		switch x := e.(type) {
+		case *ast.UnaryExpr:
+			if x.Op == token.AND {
+				walk(x.X)
+			}
+		case *ast.StarExpr:
+			walk(x.X)
+		case *ast.Ident:
+			if o := d.info.Uses[x]; o != nil && !seen[o] {
+				seen[o] = true
+				for _, r := range d.deps[o] {
+					walk(r)
+				}
+			} else if o := d.info.Defs[x]; o != nil && !seen[o] {
+				seen[o] = true
+				for _, r := range d.deps[o] {
+					walk(r)
+				}
+			}
+		case *ast.CallExpr:
+			if id, ok := ast.Unparen(x.Fun).(*ast.Ident); ok {
+				if b, ok := d.info.Uses[id].(*types.Builtin); ok && b.Name() == "append" {
+					for _, a := range x.Args {
+						walk(a)
+					}
+				}
+			}
+		}
+	}
+	walk(e)
+}
+
+// dumpObsIfAsked prints every obligation recorded so far when VCHK_DUMP is set (development aid; evidence files keep
+// only a sample of the discharged obligations).
+func dumpObsIfAsked(c *Ctx) {
+	if os.Getenv("VCHK_DUMP") == "" || c.fixtureMode {
+		return
+	}
+	for _, o := range c.Obs {
+		fmt.Printf("OBS %s %s %s %s\n", o.Rule, o.Status, o.Key, o.Pos)
+	}
 }
